@@ -484,24 +484,16 @@ pub fn run(rep: &mut Report, thorough: bool) {
         let t0 = std::time::Instant::now();
         let cfgm = Cfg::base();
         let firsts: [&[u8]; 5] = [b"GET / HTTP/1.1\r\n\r\n", b"SSH-2.0-x\r\n", b"GE", b"zzzz", b"\x80\x00\x00\x28\x72\xfe\x1d\x13\x00\x00\x00\x00\x00\x00\x00\x02\x00\x01\x86\xa0"];
-        let mut seen = std::collections::HashSet::new();
         let mut cmds: Vec<Cmd> = Vec::new();
         let mut second: Vec<Cmd> = Vec::new();
-        let mut sp = 0u32;
-        let mut k = 0usize;
+        // cookies learned from the responder's own SYN-ACKs
         // phase A: 5000 flows that are all identified; phase B: the mix
-        while k < 70000 && sp < 4 * 65536 {
-            let f = flow(sp & 1 == 1, (sp >> 1) as u16, 9000 + (sp >> 17) as u16);
-            let g = crate::sip::cookie_guess(cfgm.key, &f.cip, &f.sip, f.cport, f.sport);
-            if seen.insert(g) {
-                let p = if k < 5000 { firsts[0] } else { firsts[k % firsts.len()] };
-                cmds.push(Cmd::Frame(f.tcp(1, g.wrapping_add(1), F_PSH | F_ACK, p)));
-                if k % 7 == 0 {
-                    second.push(Cmd::Frame(f.tcp(1 + p.len() as u32, g.wrapping_add(1), F_PSH | F_ACK, b"T / HTTP/1.1\r\n\r\n")));
-                }
-                k += 1;
+        for (k, (f, g)) in crate::props::c07::many_flow_set(&cfgm, 70000, 9000, rep).into_iter().enumerate() {
+            let p = if k < 5000 { firsts[0] } else { firsts[k % firsts.len()] };
+            cmds.push(Cmd::Frame(f.tcp(1, g.wrapping_add(1), F_PSH | F_ACK, p)));
+            if k % 7 == 0 {
+                second.push(Cmd::Frame(f.tcp(1 + p.len() as u32, g.wrapping_add(1), F_PSH | F_ACK, b"T / HTTP/1.1\r\n\r\n")));
             }
-            sp += 1;
         }
         cmds.extend(second);
         let total = cmds.len() as u64;
